@@ -15,6 +15,7 @@ import (
 
 	"verif/harness/evd"
 	"verif/harness/rig"
+	"verif/harness/seam"
 )
 
 // hostRecorder is http.DefaultTransport for the duration of a case: it answers
@@ -64,7 +65,7 @@ func TestC19svc(t *testing.T) {
 	col := evd.New("C19", cfg)
 	defer col.Flush()
 	n := cfg.N(24, 400)
-	var steps int64
+	var steps, faults int64
 	for i := 0; i < n; i++ {
 		seed := cfg.CaseSeed("C19svc", i)
 		if !cfg.Want(i, seed) {
@@ -147,7 +148,27 @@ func TestC19svc(t *testing.T) {
 				}
 			}
 			for s := 0; s < 6+r.Intn(6); s++ {
-				switch a := r.Intn(6); {
+				switch a := r.Intn(8); {
+				case a >= 6 && exists && cur != "":
+					// a storage error inside one of the running pusher's own transactions
+					// (fetch, acknowledge, refresh, lease extension): the pusher gives up
+					// with that error, and the supervisor has to replace it - whatever is
+					// published afterwards must be pushed like before
+					k := 1 + r.Intn(12)
+					seam.C.ResetCounts()
+					seam.C.SetFault(&seam.Fault{Actor: "svc", K: k, Mode: seam.FaultError})
+					must(e.Pub.Publish(e.Ctx, &pubsubpb.PublishRequest{Topic: topic, Messages: []*pubsubpb.PubsubMessage{{Data: []byte(`{"x":"during-fault"}`)}}}))
+					settle()
+					hit := seam.C.FaultHits() > 0
+					seam.C.SetFault(nil)
+					if hit {
+						faults++
+					}
+					trace = append(trace, fmt.Sprintf("storage error at statement %d of the pusher (hit=%v)", k, hit))
+					// the supervisor retries its own round after a second
+					time.Sleep(2 * time.Second)
+				case a >= 6:
+					continue
 				case !exists:
 					cur = []string{"", urlA, urlB}[r.Intn(3)]
 					req := &pubsubpb.Subscription{Name: sub, Topic: topic}
@@ -181,5 +202,6 @@ func TestC19svc(t *testing.T) {
 		})
 	}
 	col.Add("ev_supervisor_publish_checks", steps)
+	col.Add("ev_storage_errors_injected_into_a_running_pusher", faults)
 	col.Add("relevant_events", steps)
 }
